@@ -759,4 +759,44 @@ theorem conjunctive_context_broke_rollback :
   revert this
   decide
 
+/-! ### Graph objects handed out by the wrapper (findings C18-F2, C18-F4) -/
+
+/-- Every `Graph` object the wrapper hands out — by `contexts(triple)` or as the graphs of a triple yielded
+    by `triples(pattern, context)` (hence by `ConjunctiveGraph.contexts`, `.quads`, `.get_graph`) — is bound
+    to the wrapper, and a write made through an object bound to the wrapper IS a step of the wrapper: it is
+    logged, and every theorem about histories (`code_history_refines_spec` …) covers it. -/
+def Statement_handed_out_graphs_log : Prop :=
+  ∀ (s : XW),
+    (∀ t, ∀ h ∈ handOutContexts s.m t, h.2 = Bound.wrapper) ∧
+    (∀ p, ∀ tc ∈ handOutTriples s.m.cur p, ∀ h ∈ tc.2, h.2 = Bound.wrapper) ∧
+    (∀ (h : Handle) (w : HWrite), h.2 = Bound.wrapper → ∃ o : XOp, s.writeVia h w = s.step o)
+
+theorem handed_out_graphs_log : Statement_handed_out_graphs_log := by
+  intro s
+  refine ⟨?_, ?_, ?_⟩
+  · intro t h hh
+    simp only [handOutContexts, List.mem_map] at hh
+    obtain ⟨g, _, rfl⟩ := hh
+    rfl
+  · intro p tc htc h hh
+    simp only [handOutTriples, List.mem_map] at htc
+    obtain ⟨tc0, _, rfl⟩ := htc
+    simp only [List.mem_map] at hh
+    obtain ⟨g, _, rfl⟩ := hh
+    rfl
+  · intro h w hb
+    cases w with
+    | add t => exact ⟨.add (mkQuad t h.1), by simp only [XW.writeVia, hb, XW.step]⟩
+    | remove a b c => exact ⟨.remove (a, b, c, some h.1), by simp only [XW.writeVia, hb, XW.step]⟩
+
+/-- …whereas a write through an object bound to the WRAPPED store (what `triples()` handed out before the
+    fix C18-F4, and `contexts()` before C18-F2) bypasses the log: rollback does not undo it. -/
+theorem bypass_breaks_rollback :
+    ¬ SetEq (((XW.mk { cur := [(1, 2, 3, 9)], ctxs := [9] } []).writeVia (9, Bound.wrapped) (.remove none none none)).rollback).m.cur
+        [(1, 2, 3, 9)] := by
+  intro h
+  have := (h (1, 2, 3, 9)).2 (by simp)
+  revert this
+  decide
+
 end RV.C18
